@@ -501,7 +501,7 @@ def units(tier):
     E = "trimesh.voxel.encoding."
     views = [("none", {}), ("flip", {"axes": (0,)}), ("flip", {"axes": (0, 1)}), ("transpose", {"perm": (1, 0, 2)}), ("transpose", {"perm": (2, 0, 1)}), ("flat", {}), ("reshape", {"newshape": (1, 4, 1)})]
     for kind in ("dense", "sparse", "rle", "brle"):
-        for vname, vp in (views if T else views[:4]):
+        for vname, vp in views:  # all views in both tiers (the cyclic transpose and the flat view exposed two defects that the first four views cannot show)
             p = {"shape": (2, 2, 1), "kind": kind, "view": vname}
             p.update(vp)
             vtag = vname + "".join(map(str, vp.get("axes", vp.get("perm", vp.get("newshape", "")))))
